@@ -35,6 +35,7 @@ fn main() {
         "bind" => {
             let mut rep = Report::new("BIND", "model_checking");
             match args[2].as_str() {
+                "C01" => binbind::bind_c01(&mut rep),
                 "C03" => binbind::bind_c03(&mut rep),
                 "C04" => binbind::bind_c04(&mut rep),
                 "C06" => binbind::bind_c06(&mut rep),
@@ -99,7 +100,10 @@ fn run_check(id: &str) -> i32 {
         "C01" | "C04" | "C06" | "C07" | "C08" | "C10" | "C11" | "C17" | "C20" => {
             let mut rep = Report::new(id, "model_checking");
             match id {
-                "C01" => part(&mut rep, "exploration", e1::check_c01),
+                "C01" => {
+                    part(&mut rep, "exploration", e1::check_c01);
+                    part(&mut rep, "binary scenarios", binbind::bind_c01)
+                }
                 "C04" => {
                     part(&mut rep, "exploration", e1::check_c04);
                     part(&mut rep, "binary scenarios", binbind::bind_c04)
